@@ -197,8 +197,9 @@ Theorem C15_multibwr_single_at_pole : forall q02 d m0 g0,
 Proof. exact multibwr_single_at_pole. Qed.
 Print Assumptions C15_multibwr_single_at_pole.
 
-(* ... but the code uses ONE q02 for all sub-resonances: a second sub-resonance at its own mass is not
-   i/(m0 Gamma0) (its Gamma(m0_j) <> Gamma0_j).  Deviation from "combination of BWR", witness. *)
+(* ... but the code BEFORE /repo adcce89 used ONE q02 for all sub-resonances (model multi_doms): a second sub-resonance at
+   its own mass was not i/(m0 Gamma0) (its Gamma(m0_j) <> Gamma0_j).  Kept as the record of the old behaviour; the repaired
+   code is multi_doms_own / MultiBWR_own below (C15_multibwr_member_at_own_pole). *)
 Theorem C15_multibwr_sub_resonance_pole_refuted :
   exists m00 g00 m01 g01 ma mb d,
     0 < g01 /\ ma + mb < m00 /\ ma + mb < m01 /\
